@@ -43,7 +43,10 @@ RULE = ('state = (table, format, dialect/encoder arguments, text encoding, targe
         'replace the first completely. Header clause: write_header on/off x reader header= in {absent, (), [], 1, 2, 3 '
         'names as tuple or list} on every typed table with <= 1 data row and every table with a zero-field or non-text '
         'header row (thorough: also every one-column typed table) x 34 call forms (MemorySource) and default forms x 4 target kinds x 3 '
-        'codecs, and on to* + append* sequences of such tables. Excluded: states on which csv.writer itself raises '
+        'codecs, and on to* + append* sequences of such tables. json reader sample= (records inspected for field names): sample in '
+        '{absent, 1, 2, n-1, n, n+1} x n in 1..5 records (rectangular and ragged) x array / lines form x header= '
+        'absent / same / reversed x 4 target kinds; thorough adds 999..1002 records x sample in {absent, 1000, n-1, 1}. '
+        'Excluded: states on which csv.writer itself raises '
         'csv.Error (QUOTE_NONE without escapechar, lone empty field), numeric cells under QUOTE_NONNUMERIC (read '
         'back as float by the csv module), text not encodable in the chosen codec (ascii / locale default are '
         'run on the ASCII subset, latin-1 on code points < 256), QUOTE_STRINGS/QUOTE_NOTNULL (reader side differs between 3.12 and 3.13), '
@@ -396,7 +399,7 @@ def pickle_case(table, kind, wh, protocol, prior=None):
     return None
 
 
-def json_case(table, kind, lines, ensure_ascii, hdrmode, prior=None):
+def json_case(table, kind, lines, ensure_ascii, hdrmode, prior=None, sample=None):
     flds = [str(x) for x in table[0]]
     header = {'none': None, 'same': list(flds), 'reversed': list(reversed(flds))}[hdrmode]
     exp = ref.json_table(table, header=header)
@@ -415,6 +418,8 @@ def json_case(table, kind, lines, ensure_ascii, hdrmode, prior=None):
         rkw = {'lines': True} if lines else {}
         if header is not None:
             rkw['header'] = header
+        if sample is not None:      # how many records the reader inspects for field names: never changes the rows
+            rkw['sample'] = sample
         got = list(etl.fromjson(t.source(), **rkw))
     except Exception as e:
         return ('raises %s' % type(e).__name__, exp, _exc(e))
@@ -502,8 +507,12 @@ def replay(case):
     elif k == 'pickle':
         r = pickle_case(tb(case['table']), case['target'], case['wh'], case['protocol'], prior=prior)
     elif k == 'json':
-        r = json_case(tb(case['table']), case['target'], case['lines'], case['ensure_ascii'], case['hdrmode'],
-                      prior=prior)
+        if 'nrecords' in case:      # large tables are stored by size, not by value
+            table = sample_table(_G.get('f', 'x'), case['nrecords'])
+        else:
+            table = tb(case['table'])
+        r = json_case(table, case['target'], case['lines'], case['ensure_ascii'], case['hdrmode'],
+                      prior=prior, sample=case.get('sample'))
     elif k == 'jsonarrays':
         r = jsonarrays_case(tb(case['table']), case['target'], case['output_header'], case['ensure_ascii'],
                             prior=prior)
@@ -607,6 +616,7 @@ def bounds(tier, seed):
             'placements_per_string': 12, 'grid_tables': 2 * 12 ** 4, 'typed_tables': len(_G['typed']),
             'pickle_tables': len(_G['pickle']), 'json_tables': len(_G['json']),
             'append_base_tables': len(_G['app']), 'reuse_tables': len(_G['reuse']),
+            'json_sample_values': 'absent, 1, 2, n-1, n, n+1 for n = 1..5' + ('; 999..1002 records at the default' if tier != 'quick' else ''),
             'header_axis_tables': len(_G['hdr']), 'header_arguments': [repr(h) for h in HARGS],
             'reuse_pairs': len(_G['reuse']) ** 2,
             'append_sequences': 3 * (1 + 3 + 9) if tier == 'quick' else 6 * (1 + 6 + 36),
@@ -663,6 +673,7 @@ def items(tier, seed):
             for i in range(3 if tier == 'quick' else 6)]
     out += [('H', lo, hi) for lo, hi in _slices(len(_G['hdr']), 10 if tier == 'quick' else 25)]
     out += [('HA', fmt) for fmt in ('csv', 'tsv')]
+    out += [('FS', kind) for kind in KINDS]
     out += [('DA', lo, hi) for lo, hi in _slices(len(_G['S2']), 8 if tier == 'quick' else 4)]
     out += [('R', fmt, kind) for fmt in ('csv', 'tsv', 'pickle', 'json', 'jsonarrays') for kind in KINDS]
     out += [('E', lo, hi) for lo, hi in _slices(len(_G['pickle']), 150 if tier == 'quick' else 100)]
@@ -678,7 +689,7 @@ def cost(item):
         return {'dialects': 3, 'env': 4, 'envlite': 6, 'full': 9, 'zmem': 3, 'zenv': 4, 'zfull': 9}[item[1]]
     if p == 'B':
         return 8 if item[3] == 'all' else 2
-    return {'C': 5, 'D': 2, 'DA': 3, 'R': 2, 'E': 3, 'F': 3, 'G': 1, 'H': 4, 'HA': 1}[p]
+    return {'C': 5, 'D': 2, 'DA': 3, 'R': 2, 'E': 3, 'F': 3, 'G': 1, 'H': 4, 'HA': 1, 'FS': 2}[p]
 
 
 def _cfgs_A(name):
@@ -815,6 +826,8 @@ def run_item(item, acc):
         acc.sample({'part': 'C', 'table': _G['typed'][lo], 'configurations': len(cfgs)}, 1)
     elif p == 'D':
         _run_append(acc, item[1], item[2], item[3])
+    elif p == 'FS':
+        _run_json_sample(acc, item[1])
     elif p == 'H':
         _run_header_axis(acc, item[1], item[2])
     elif p == 'HA':
@@ -934,6 +947,60 @@ def _run_append_dialects(acc, lo, hi):
                     _do_append(acc, fn, (t0, t1), whs, kind, 'utf-8', d, None)
     acc.sample({'part': 'DA', 'tables': [((f, 'k'), (_G['S2'][lo], f)), ((f, 'k'), (f, _G['S2'][lo]))],
                 'call_forms': len(FORMS)}, 1)
+
+
+def sample_table(f, n, ragged=False):
+    """n distinguishable records; with ragged=True every third row is short and every fourth over-long."""
+    rows = []
+    for i in range(n):
+        r = (i, 's%d' % i)
+        if ragged and i % 3 == 1:
+            r = r[:1]
+        if ragged and i % 4 == 2:
+            r = r + ('L',)
+        rows.append(r)
+    return ((f, 'k'),) + tuple(rows)
+
+
+def _run_json_sample(acc, kind):
+    """Part FS: the reader's `sample` argument (how many records are inspected for field names) as a boundary
+    axis: sample in {1, 2, n-1, n, n+1} against n records, array and lines form, header= absent / given; in
+    thorough one sweep at the default sample size (1000) with 999..1002 records."""
+    f = _G['f']
+    jobs = []
+    for n in range(1, 6):
+        for ragged in (False, True):
+            table = sample_table(f, n, ragged)
+            for smp in sorted(set([1, 2, n - 1, n, n + 1]) - set([0])):
+                jobs.append((table, None, smp))
+            jobs.append((table, None, None))
+    if _G['tier'] != 'quick' and kind == 'mem':
+        for n in (999, 1000, 1001, 1002):
+            for smp in (None, 1000, n - 1, 1):
+                jobs.append((sample_table(f, n), n, smp))
+    for table, nrec, smp in jobs:
+        for lines in (False, True):
+            for hm in ('none', 'same', 'reversed'):
+                acc.states += 1
+                acc.transitions += 2
+                acc.evals += 1
+                acc.nontrivial += 1
+                acc.counters['op:tojson%s/fromjson(sample=) %s' % ('(lines)' if lines else '', kind)] += 1
+                r = json_case(table, kind, lines, None, hm, sample=smp)
+                acc.outcome(('FS', len(table), smp, lines))
+                if r is not None:
+                    sig, exp, obs = r
+                    case = {'kind': 'json', 'target': kind, 'lines': lines, 'ensure_ascii': None, 'hdrmode': hm,
+                            'sample': smp}
+                    if nrec is None:
+                        case['table'] = table
+                    else:
+                        case['nrecords'] = nrec
+                        exp, obs = 'the %d written records' % nrec, '%s rows' % (len(obs) if isinstance(obs, list) else obs)
+                    acc.violation('tojson%s/fromjson(sample=) on %s | %s'
+                                  % ('(lines=True)' if lines else '', _where(kind), sig), case, exp, obs,
+                                  'tojson(<%d records>, <%s>, lines=%r) then fromjson(sample=%r, header: %s)'
+                                  % (len(table) - 1, kind, lines, smp, hm))
 
 
 def reuse_tables(seed):
